@@ -71,6 +71,8 @@ class AccfgGen:
         if k == "sl":
             a = r.randrange(p["n_acc"])
             st = {"k": "sl", "acc": a, "vals": [r.choice(scope) for _ in range(p["n_fields"][a])], "gap": []}
+            if p.get("n_launch"):
+                st["lvals"] = [r.choice(p["launch_pool"]) for _ in range(p["n_launch"][a])]
             if p["gap"] and r.random() < 0.4:
                 for _ in range(r.randint(1, 2)):
                     g = r.choice(["pure", "opq", "call"])
@@ -126,11 +128,14 @@ class AccfgGen:
         return st
 
     def program(self):
-        scope = ["%x0", "%x1", "%x2"]
+        scope = ["%x0", "%x1", "%x2"] + [f"%k{j}" for j in range(self.p.get("consts", 0))]
         body = self.stmts(self.p["top_stmts"], scope, 0, False)
         if not any(has_kind(s, "sl") for s in body):
-            body.append({"k": "sl", "acc": 0, "vals": [self.r.choice(scope) for _ in range(self.p["n_fields"][0])], "gap": []})
-        return {"n_acc": self.p["n_acc"], "n_fields": self.p["n_fields"][: self.p["n_acc"]], "body": body}
+            st = {"k": "sl", "acc": 0, "vals": [self.r.choice(scope) for _ in range(self.p["n_fields"][0])], "gap": []}
+            if self.p.get("n_launch"):
+                st["lvals"] = [self.r.choice(self.p["launch_pool"]) for _ in range(self.p["n_launch"][0])]
+            body.append(st)
+        return {"n_acc": self.p["n_acc"], "n_fields": self.p["n_fields"][: self.p["n_acc"]], "body": body, "consts": self.p.get("consts", 0)}
 
 
 def has_kind(s, kind):
@@ -155,7 +160,7 @@ ARGS = ["%x0", "%x1", "%x2", "%n0", "%n1", "%n2", "%l0", "%t0", "%b0", "%b1", "%
 ARG_TYPES = ["i32", "i32", "i32", "index", "index", "index", "index", "index", "i1", "i1", "i1"]
 
 
-def emit(ast, acc_names=None) -> str:
+def emit(ast, acc_names=None, vty="i32", decls=()) -> str:
     """MLIR text of the program.  acc_names lets C04 substitute real accelerator names / fields."""
     L: list[str] = []
     cnt = [0]
@@ -178,10 +183,14 @@ def emit(ast, acc_names=None) -> str:
         if k == "sl":
             acc = names[s["acc"]]
             st, tk = fresh("s"), fresh("t")
-            fs = ", ".join(f'"{f}" = {v} : i32' for f, v in zip(acc["fields"], s["vals"]))
+            fs = ", ".join(f'"{f}" = {v} : {vty}' for f, v in zip(acc["fields"], s["vals"]))
             an = acc["name"]
             e(ind, f'{st} = accfg.setup "{an}" to ({fs}) : !accfg.state<"{an}">')
-            e(ind, f'{tk} = "accfg.launch"({st}) <{{param_names = [], accelerator = "{an}"}}> : (!accfg.state<"{an}">) -> !accfg.token<"{an}">')
+            lv = s.get("lvals", [])
+            lnames = ", ".join(f'"{n}"' for n in acc.get("launch_fields", [])[: len(lv)])
+            largs = "".join(f"{v}, " for v in lv)
+            ltys = "".join(f"{vty}, " for _ in lv)
+            e(ind, f'{tk} = "accfg.launch"({largs}{st}) <{{param_names = [{lnames}], accelerator = "{an}"}}> : ({ltys}!accfg.state<"{an}">) -> !accfg.token<"{an}">')
             stmts(ind, s.get("gap", []))
             e(ind, f'"accfg.await"({tk}) : (!accfg.token<"{an}">) -> ()')
         elif k == "call":
@@ -191,10 +200,10 @@ def emit(ast, acc_names=None) -> str:
             else:
                 e(ind, f'func.call @ext() {{{eff}"vtag" = {s["tag"]} : i64}} : () -> ()')
         elif k == "opq":
-            tys = ", ".join("i32" for _ in s["args"])
+            tys = ", ".join(vty for _ in s["args"])
             e(ind, f'"test.op"({", ".join(s["args"])}) {{"vtag" = {s["tag"]} : i64}} : ({tys}) -> ()')
         elif k == "pure":
-            e(ind, f'{s["name"]} = arith.{s["op"]} {s["a"]}, {s["b"]} : i32')
+            e(ind, f'{s["name"]} = arith.{s["op"]} {s["a"]}, {s["b"]} : {vty}')
         elif k == "for":
             head = f'scf.for {s["iv"]} = {s["lb"]} to {s["ub"]} step {s["step"]}'
             if s["carry"]:
@@ -205,14 +214,14 @@ def emit(ast, acc_names=None) -> str:
                     + " iter_args("
                     + ", ".join(f"{c[0]} = {c[1]}" for c in s["carry"])
                     + ") -> ("
-                    + ", ".join("i32" for _ in s["carry"])
+                    + ", ".join(vty for _ in s["carry"])
                     + ")"
                 )
             e(ind, head + " {")
-            e(ind + 1, f'{s["ic"]} = arith.index_cast {s["iv"]} : index to i32')
+            e(ind + 1, f'{s["ic"]} = arith.index_cast {s["iv"]} : index to {vty}')
             stmts(ind + 1, s["body"])
             if s["carry"]:
-                e(ind + 1, "scf.yield " + ", ".join(c[2] for c in s["carry"]) + " : " + ", ".join("i32" for _ in s["carry"]))
+                e(ind + 1, "scf.yield " + ", ".join(c[2] for c in s["carry"]) + " : " + ", ".join(vty for _ in s["carry"]))
             e(ind, "}")
         elif k == "if":
             e(ind, f'scf.if {s["cond"]} {{')
@@ -225,11 +234,17 @@ def emit(ast, acc_names=None) -> str:
             raise ValueError(k)
 
     e(0, "builtin.module {")
+    for d in decls:
+        e(1, d)
     e(1, "func.func private @ext() -> ()")
     e(1, '"llvm.func"() <{sym_name = "lext", function_type = !llvm.func<void ()>, CConv = #llvm.cconv<ccc>, linkage = #llvm.linkage<"external">, visibility_ = 0 : i64}> ({}) : () -> ()')
-    e(1, "func.func @f(" + ", ".join(f"{a} : {t}" for a, t in zip(ARGS, ARG_TYPES)) + ") {")
+    e(1, "func.func @f(" + ", ".join(f"{a} : {vty if t == 'i32' else t}" for a, t in zip(ARGS, ARG_TYPES)) + ") {")
     for c in range(4):
         e(2, f"%c{c} = arith.constant {c} : index")
+    for j in range(ast.get("consts", 0)):
+        e(2, f"%k{j} = arith.constant {1000 + 7 * j} : {vty}")
+    e(2, f"%one = arith.constant 1 : {vty}")
+    e(2, f"%zero = arith.constant 0 : {vty}")
     stmts(2, ast["body"])
     e(2, "func.return")
     e(1, "}")
